@@ -7,18 +7,6 @@ import IrVerif.Lemmas.SortPos
 namespace IrVerif.Sort
 open List
 
-/-- **well-scoped**: a value produced by a node `x` of graph `h` is used only by nodes of `h` or
-    nodes nested (at any depth) in nodes of `h` — i.e. inside the span of `h`. -/
-def WellScoped (g : MGraph) : Prop :=
-  ∀ h ∈ allGraphs g, ∀ x ∈ h.2, ∀ u ∈ nodesOf g, some x.id ∈ u.inputs → u ∈ entsNs h.1 h.2
-
-/-- **already ordered** (the property's order clause for one graph `h`): whenever node `p` of `h`
-    produces a value used by node `c` of `h` or by a node nested at any depth inside `c`
-    (`u ∈ entsN h.1 c`), `p` comes before `c` in the node sequence of `h`. -/
-def OrderedG (h : MGraph) : Prop :=
-  ∀ p ∈ h.2, ∀ c ∈ h.2, (∃ u ∈ entsN h.1 c, some p.id ∈ u.inputs) →
-    Before (h.2.map MNode.id) p.id c.id
-
 theorem entsNs_append (k : Nat) (l1 l2 : List MNode) :
     entsNs k (l1 ++ l2) = entsNs k l1 ++ entsNs k l2 := by
   simp [entsNs_eq]
